@@ -2031,6 +2031,10 @@ def check_implied_attrs(context, decls):
     for decl in decls:
         expr = decl.attrs["implied"]
         if expr:
+            if isinstance(expr, int) and not isinstance(expr, bool):
+                # a number written under attrs: in the YAML file
+                expr = str(expr)
+                decl.attrs["implied"] = expr
             if not isinstance(expr, str):
                 raise RuntimeError(
                     "implied attribute must have a value for argument '{}'"
